@@ -104,6 +104,13 @@ def probes(ctx):
     groups.append(("rgb-typed", b"color = rgb { 1 300 3 }", rgb_bin([1, 300, 3]), "struct(%s:tup(str,seq(u8)))" % col, "equal-error"))
     groups.append(("rgb-typed", b"color=rgb{70000 2 3 4}", rgb_bin([70000, 2, 3, 4]), "struct(%s:tup(str,seq(u32)))" % col, "equal-value"))
     groups.append(("rgb-any", b"color = rgb { 1 2 3 }", rgb_bin([1, 2, 3]), "struct(%s:any)" % col, "differ-by-design"))
+    # dates at the calendar boundaries (Props/C10_link.v C10_link_date, all -5000 <= y <= 32767 and calendar days)
+    for (y, m, d) in [(1444, 11, 11), (1, 1, 1), (1, 12, 31), (9999, 12, 31), (1600, 2, 28), (1600, 3, 1), (-1, 1, 1), (-4999, 6, 30),
+                      (32767, 12, 31), (2200, 1, 31), (1836, 4, 30), (5, 7, 31), (1066, 10, 14)]:
+        for pad in (False, True):
+            t = ("%d.%02d.%02d" if pad else "%d.%d.%d") % (y, m, d)
+            groups.append(("date", b"x=" + t.encode(), D.bstr(b"x", False) + D.EQ + D.tok(0x0c) + struct.pack("<i", D.date_to_binary(y, m, d)),
+                           "struct(%s:date)" % x, "equal-value"))
     imin = -2 ** 63
     groups.append(("i64-min", b"x=%d" % imin, D.bstr(b"x", False) + D.EQ + D.tok(0x317) + struct.pack("<q", imin), "struct(%s:i64)" % x, "finding"))
     groups.append(("i64-min", b"x=%d" % (imin + 1), D.bstr(b"x", False) + D.EQ + D.tok(0x317) + struct.pack("<q", imin + 1), "struct(%s:i64)" % x, "equal-value"))
